@@ -288,6 +288,11 @@ class SymFlow:
                 continue
             if isinstance(f, ast.Attribute) and f.attr in PURE_METHODS:
                 continue
+            if isinstance(f, ast.Name) and f.id in self.helpers and f.id not in self.st.env and f.id not in self.st.ver:
+                if f.id not in self._hx:
+                    self._hx[f.id] = helper_expr(self.helpers[f.id])
+                if self._hx[f.id] is not None and is_pure(self._hx[f.id]):
+                    continue                   # a helper that is one side-effect-free expression over its parameters
             if isinstance(f, ast.Attribute):
                 b = f.value
                 while isinstance(b, (ast.Attribute, ast.Subscript)):
